@@ -54,3 +54,21 @@ Definition run_srref (args : list tok) : list byte :=
            | None => bad_case end
   | _ => bad_case
   end.
+
+(* SRREFE x<administrative record bytes> -> as SRREF, after the decoded record went through the ENCODER and the decoder once more (a
+   node that stores or forwards a status report re-encodes it: the reference must survive) *)
+Definition run_srrefe (args : list tok) : list byte :=
+  match args with
+  | [t] => match get_bytes t with
+           | Some bs => match admin_from_bytes bs with
+                        | Ok (BundleStatusReport sr0) =>
+                            match admin_from_bytes (enc_admin_record (BundleStatusReport sr0)) with
+                            | Ok (BundleStatusReport sr) =>
+                                join [S_ "OK"; show_bytes (id_refbundle (mk_id_sr (sr_src sr) (sr_time sr) (sr_seq sr) (sr_frag_off sr) (sr_frag_len sr)))]
+                            | Ok _ => S_ "OTHER2"
+                            | Err _ => S_ "ERR2" | Panic _ => S_ "PANIC" end
+                        | Ok _ => S_ "OTHER"
+                        | Err _ => S_ "ERR" | Panic _ => S_ "PANIC" end
+           | None => bad_case end
+  | _ => bad_case
+  end.
